@@ -111,6 +111,19 @@ impl Outcome {
             self.violation = Some(Violation { signature: signature.to_string(), what: what.into(), detail });
         }
     }
+    /// a mismatch that several root causes present in the case could explain (candidates in priority order): tolerated
+    /// when one of them is a listed open finding, else a violation under the first; all candidates are recorded so that
+    /// a witness is recognised whichever of its causes it was listed under
+    pub fn mismatch_any(&mut self, ctx: &Ctx, signatures: &[String], what: impl Into<String>, detail: Value) {
+        if let Some(s) = signatures.iter().find(|s| ctx.tolerated(s)) {
+            self.known.push(s.clone());
+            return;
+        }
+        let what = what.into();
+        for s in signatures {
+            self.violate(s, what.clone(), detail.clone());
+        }
+    }
     /// report a mismatch: tolerated (counted) when it is a listed open finding, else a violation
     pub fn mismatch(&mut self, ctx: &Ctx, signature: &str, what: impl Into<String>, detail: Value) {
         if ctx.tolerated(signature) {
